@@ -47,7 +47,10 @@ def make(kind: str, g: L.G, indent: Optional[str] = None) -> dict:
         elif rule == 'meta_item':
             text = L.text_of([g.meta_item_line(['INDENT', indent] if indent else None)])
         else:
-            text = L.text_of(L.build_target(g.r, rule, g.c))
+            import copy as _copy
+            cfg = _copy.copy(g.c)
+            cfg.inline_breaks = cfg.outer_trivia = 0.0  # donors go into documents: no line breaks inside inline models
+            text = L.text_of(L.build_target(g.r, rule, cfg))
         return {'k': kind, 't': text}
     tok = {
         'DATE': g.date, 'ACCOUNT': g.account, 'CURRENCY': g.currency, 'NUMBER': g.number, 'ESCAPED_STRING': g.string,
